@@ -1,6 +1,7 @@
 package main
 
 import (
+	"sort"
 	"fmt"
 	"go/token"
 	"go/types"
@@ -98,6 +99,35 @@ func checkC20(c *Ctx, r *Report) {
 		}
 		for k, w := range map[int64]string{1: "bcdplus", 2: "packed6", 3: "latin1"} {
 			r.Check(kinds[k] == w, fmt.Sprintf("string encoding %d", k), g.Pos(), kinds[k], fmt.Sprintf("encoding %d selects a %q decoder, want %q", k, kinds[k], w))
+		}
+		// "ID strings of every length" includes the empty one: with a character count of zero no
+		// decoder may fail, whatever follows in the record (engine E1: every error exit's path
+		// condition is unsatisfiable under c == 0)
+		r.Rule("empty-string-decodes", "each ID-string decoder accepts a zero-length string regardless of the bytes available", 3)
+		var ks []int64
+		for k := range got {
+			ks = append(ks, k)
+		}
+		sort.Slice(ks, func(i, j int) bool { return ks[i] < ks[j] })
+		for _, k := range ks {
+			f := got[k]
+			if len(f.Params) != 2 {
+				r.Unk(c.FnName(f)+"|c == 0 never fails", f.Pos(), "unexpected decoder signature")
+				continue
+			}
+			evs, why := extractEventsWith(c, f, nil, func(e *lfEngine, fr *lfFrame, st *lfState) {
+				if cv, ok := fr.env[f.Params[1]].(vInt); ok {
+					st.cons = append(st.cons, leq(cv.E, linConst(0)), geq(cv.E, linConst(0)))
+				}
+			})
+			okE, nErr := why == "", 0
+			for _, le := range evs {
+				if !le.OK {
+					nErr++
+					okE = false
+				}
+			}
+			r.Check(okE, c.FnName(f)+"|c == 0 never fails", f.Pos(), fmt.Sprintf("no error exit is reachable with a zero count (%d found)", nErr), "an error exit is reachable with a character count of zero: an unnamed sensor's record fails to decode")
 		}
 	}
 
